@@ -1863,7 +1863,9 @@ class FortranFile:
             return False
         if file_ast.current_scope is None:
             msg = "IMPLICIT statement without enclosing scope"
-            file_ast.add_error(msg, Severity.error, ln, match.start(1), match.end(1))
+            file_ast.add_error(
+                msg, Severity.error, ln, *self.clamp_to_line(ln, match.span(1))
+            )
         else:
             if match.group(1).lower() == "none":
                 file_ast.current_scope.set_implicit(False, ln)
@@ -1902,9 +1904,18 @@ class FortranFile:
         except ValueError:
             msg = "Multiple CONTAINS statements in scope"
         if msg:
-            file_ast.add_error(msg, Severity.error, ln, match.start(1), match.end(1))
+            file_ast.add_error(
+                msg, Severity.error, ln, *self.clamp_to_line(ln, match.span(1))
+            )
         log.debug("%s !!! CONTAINS - Ln:%d", line, ln)
         return True
+
+    def clamp_to_line(self, ln: int, span: tuple[int, int]) -> tuple[int, int]:
+        """Columns found in a statement that was joined from continuation lines,
+        limited to the physical line ``ln`` (1-based) the diagnostic is put on"""
+        line = self.get_line(ln - 1, pp_content=True)
+        line_len = len(line) if line is not None else 0
+        return min(span[0], line_len), min(span[1], line_len)
 
     def parse_docs(self, line: str, ln: int, file_ast: FortranAST, docs: list[str]):
         """Parse documentation stings of style Doxygen or FORD.
